@@ -23,10 +23,20 @@ type GroupedAVP struct {
 
 // DecodeGrouped decodes a Grouped AVP from a datatype.Grouped (byte array).
 func DecodeGrouped(data datatype.Grouped, application uint32, dictionary *dict.Parser) (*GroupedAVP, error) {
+	return decodeGrouped(data, application, dictionary, 1)
+}
+
+// MaxGroupedDepth is the deepest nesting of grouped AVPs the decoder accepts.
+const MaxGroupedDepth = 64
+
+func decodeGrouped(data datatype.Grouped, application uint32, dictionary *dict.Parser, depth int) (*GroupedAVP, error) {
+	if depth > MaxGroupedDepth {
+		return nil, fmt.Errorf("Grouped AVPs nested deeper than %d", MaxGroupedDepth)
+	}
 	g := &GroupedAVP{}
 	b := []byte(data)
 	for n := 0; n < len(b); {
-		avp, err := DecodeAVP(b[n:], application, dictionary)
+		avp, err := decodeAVP(b[n:], application, dictionary, depth)
 		if err != nil {
 			return nil, err
 		}
